@@ -40,6 +40,139 @@ var splFrags = []string{
 var sqlFrags = []string{"SELECT * FROM t", "SELECT a, b FROM t WHERE a = 1", "SELECT COUNT(*) FROM t GROUP BY a", "SELECT a AS x FROM `t` ORDER BY a DESC LIMIT 5", "SELECT MAX(a), MIN(b) FROM t WHERE b LIKE 'x%'", "SHOW COLUMNS IN t", "DESCRIBE t", "SELECT DISTINCT a FROM t"}
 var promFrags = []string{"up", "m{a=\"b\"}", "m{a!=\"b\",c=~\"x.*\"}", "sum(m) by (a)", "avg without (a) (m)", "rate(m[5m])", "m + n", "m * on(a) n", "histogram_quantile(0.9, m)", "clamp(m, 1, 2)", "m offset 5m", "topk(3, m)", "count_values(\"v\", m)", "(m)", "-m", "m > bool 1", "label_replace(m, \"a\", \"$1\", \"b\", \"(.*)\")"}
 
+// PromQL takes ANY number where a function has a numeric parameter (a quantile, a count k, a smoothing factor, a
+// duration in seconds, a bound, a bucket width, a capture-group index, a subquery range / step, an offset, an @ time):
+// every such parameter with values inside and outside its domain — negative, 0, 1, above 1, huge, NaN, ±Inf, a fraction
+// where an integer is expected.  %v = a number, %d = a duration, %i = an integer spelling, %m = a vector selector.
+var promNumVals = []string{"-1", "-0.5", "-0.0001", "-2", "-1e9", "-1e18", "-1e308", "0", "-0", "0.5", "1", "1.5", "2", "2.5", "3", "100", "1e3", "1e9", "1e18", "1e19", "1e308", "4294967296", "9223372036854775807", "9223372036854775808",
+	"-9223372036854775809", "NaN", "-NaN", "Inf", "+Inf", "-Inf", "0x10", "1e-320", "0.9999999999999999", "1.0000000000000002"}
+var promNumDurs = []string{"1ms", "1s", "10s", "15s", "1m", "2m", "5m", "10m", "1h", "1d", "1y", "200y", "0s", "0", "-1s", "-5m", "1e3", "1.5", "5m30s", "292y", "300y", "9223372036854775807s", "1s1ms", "1", "60", "0.5"}
+var promNumInts = []string{"0", "1", "2", "9", "10", "99", "-1", "1.5", "99999999999999999999", "4294967296", "00", "+1"}
+var promNumTmpls = []string{
+	"quantile_over_time(%v, %m[%d])", "quantile_over_time(%v, %m[5m])", "quantile_over_time(%v, %m[2m])", "quantile_over_time(%v, %m[10m:%d])", "quantile_over_time(%v, rate(%m[1m])[5m:30s])",
+	"quantile(%v, %m)", "quantile by (host) (%v, %m)", "quantile without (host) (%v, %m)", "quantile(%v, rate(%m[5m]))",
+	"topk(%v, %m)", "bottomk(%v, %m)", "topk by (job) (%v, %m)", "bottomk(%v, rate(%m[5m]))", "limitk(%v, %m)", "limit_ratio(%v, %m)",
+	"holt_winters(%m[5m], %v, %v)", "holt_winters(%m[%d], %v, 0.5)", "double_exponential_smoothing(%m[5m], %v, %v)", "predict_linear(%m[5m], %v)", "predict_linear(%m[%d], 60)",
+	"clamp(%m, %v, %v)", "clamp_min(%m, %v)", "clamp_max(%m, %v)", "round(%m, %v)", "round(%m / 3, %v)",
+	"histogram_quantile(%v, %m)", "histogram_quantile(%v, sum(rate(%m[5m])) by (le))", "histogram_quantile(%v, sum by (host, le) (%m))", "histogram_fraction(%v, %v, %m)",
+	"label_replace(%m, \"dst\", \"$%i\", \"host\", \"(.*)\")", "label_replace(%m, \"dst\", \"${%i}x$%i\", \"host\", \"(h)(.*)\")", "label_replace(%m, \"dst\", \"$%i\", \"nolabel\", \"\")",
+	"rate(%m[%d])", "increase(%m[%d])", "irate(%m[%d])", "delta(%m[%d])", "idelta(%m[%d])", "deriv(%m[%d])", "changes(%m[%d])", "resets(%m[%d])", "avg_over_time(%m[%d])", "stddev_over_time(%m[%d])", "last_over_time(%m[%d])", "absent_over_time(%m[%d])",
+	"max_over_time(%m[%d:%d])", "min_over_time(%m[%d:])", "sum_over_time(rate(%m[%d])[%d:%d])", "count_over_time(%m[%d:%d] offset %d)",
+	"%m offset %d", "sum(%m offset %d) by (host)", "rate(%m[5m] offset %d)", "%m @ %v", "rate(%m[5m] @ %v)", "%m @ start()", "%m @ end() offset %d",
+	"%m * %v", "%m / %v", "%m % %v", "%m ^ %v", "%v ^ %m", "%v % %m", "%m > %v", "%m == bool %v", "%m atan2 %v", "vector(%v)", "vector(%v) + %m", "scalar(%m) * %v", "%v", "%v + %v", "%v / %v", "%v % %v", "-%v ^ %v",
+	"quantile_over_time(scalar(%m), %m[5m])", "topk(scalar(%m), %m)", "clamp(%m, scalar(%m), %v)", "round(%m, scalar(%m) - %v)", "quantile(time() - %v, %m)",
+	"sum(%m) by (host) > %v", "count_values(\"v\", round(%m, %v))", "sort_desc(topk(%v, %m))", "abs(%m - %v)", "exp(%m * %v)", "ln(%m - %v)", "sqrt(%m - %v)", "log2(%m * %v)", "ceil(%m / %v)", "sgn(%m - %v)",
+	"hour(vector(%v))", "day_of_month(vector(%v))", "days_in_month(vector(%v))", "month(vector(%v))", "year(vector(%v))", "minute(%m * %v)", "timestamp(%m) - %v",
+}
+
+// the values outside the domain of most parameters: half of all picks
+var promNumOut = []string{"-1", "-0.5", "-0.0001", "-2", "-1e9", "-1e308", "NaN", "-NaN", "Inf", "-Inf", "1e18", "1e308", "9223372036854775808", "1.5", "2"}
+
+// one value per class of the domain question: negative fraction / integer / huge, zero, one, above one, a fraction where an
+// integer is expected, huge, beyond int64, NaN, +Inf, -Inf
+var promNumClasses = []string{"-0.5", "-1", "-1e308", "0", "1", "2", "1.5", "1e18", "9223372036854775808", "NaN", "Inf", "-Inf"}
+
+// the functions whose numeric PARAMETER is taken from the query text (the others compute with the number)
+var promNumPrimary = map[string]bool{"quantile_over_time": true, "quantile": true, "topk": true, "bottomk": true, "limitk": true, "limit_ratio": true, "holt_winters": true, "double_exponential_smoothing": true,
+	"predict_linear": true, "clamp": true, "clamp_min": true, "clamp_max": true, "round": true, "histogram_quantile": true, "histogram_fraction": true, "vector": true, "at": true}
+
+// promNumPlan: the first template of every function × promNumClasses, generated SYSTEMATICALLY before anything random:
+// first the functions with a numeric parameter over each of the given selectors (a dense series, a metric with several
+// series), then the remaining functions over the first selector.  Entries: template, value, selector.
+func promNumPlan(r *rand.Rand, sels []string) [][3]string {
+	seen := map[string]bool{}
+	var prim, rest []string
+	for _, t := range promNumTmpls {
+		fn := promNumFn(t)
+		if seen[fn] || !strings.Contains(t, "%v") || fn == "arith" {
+			continue
+		}
+		seen[fn] = true
+		if promNumPrimary[fn] {
+			prim = append(prim, t)
+		} else {
+			rest = append(rest, t)
+		}
+	}
+	var plan [][3]string
+	add := func(ts []string, sel string) {
+		var part [][3]string
+		for _, t := range ts {
+			for _, c := range promNumClasses {
+				part = append(part, [3]string{t, c, sel})
+			}
+		}
+		r.Shuffle(len(part), func(i, j int) { part[i], part[j] = part[j], part[i] })
+		plan = append(plan, part...)
+	}
+	for _, sel := range sels {
+		add(prim, sel)
+	}
+	if len(sels) > 0 {
+		add(rest, sels[0])
+	}
+	return plan
+}
+
+// promNumFillClass: the first %v of the template is the given value, the rest as in promNumFill
+func promNumFillClass(r *rand.Rand, t, val string, sels []string) string {
+	return promNumFill(r, strings.Replace(t, "%v", val, 1), sels)
+}
+
+// promNumText: one template with its parameters filled (sels = the vector selectors to use)
+func promNumText(r *rand.Rand, sels []string) string {
+	return promNumFill(r, promNumTmpls[r.Intn(len(promNumTmpls))], sels)
+}
+
+// promNumFn: the function (or operator form) a template exercises — a distribution tag
+func promNumFn(t string) string {
+	for i := 0; i < len(t); i++ {
+		c := t[i]
+		if !(c == '_' || (c >= 'a' && c <= 'z') || (c >= '0' && c <= '9' && i > 0)) {
+			if i > 0 && c == '(' {
+				return t[:i]
+			}
+			break
+		}
+	}
+	switch {
+	case strings.Contains(t, " offset "):
+		return "offset"
+	case strings.Contains(t, " @ "):
+		return "at"
+	}
+	return "arith"
+}
+
+func promNumFill(r *rand.Rand, t string, sels []string) string {
+	var b strings.Builder
+	for i := 0; i < len(t); i++ {
+		if t[i] != '%' || i+1 == len(t) {
+			b.WriteByte(t[i])
+			continue
+		}
+		i++
+		switch t[i] {
+		case 'v':
+			if r.Intn(2) == 0 {
+				b.WriteString(promNumOut[r.Intn(len(promNumOut))])
+			} else {
+				b.WriteString(promNumVals[r.Intn(len(promNumVals))])
+			}
+		case 'd':
+			b.WriteString(promNumDurs[r.Intn(len(promNumDurs))])
+		case 'i':
+			b.WriteString(promNumInts[r.Intn(len(promNumInts))])
+		case 'm':
+			b.WriteString(sels[r.Intn(len(sels))])
+		default:
+			b.WriteByte('%')
+			b.WriteByte(t[i])
+		}
+	}
+	return b.String()
+}
+
 func mutate(r *rand.Rand, s string) string {
 	b := []byte(s)
 	switch r.Intn(10) {
@@ -83,7 +216,9 @@ func genParsers(r *rand.Rand, n int, tier string) []string {
 			lang, text = "sql", sqlFrags[r.Intn(len(sqlFrags))]
 		case 1:
 			lang, text = "promql", promFrags[r.Intn(len(promFrags))]
-			if r.Intn(3) == 0 {
+			if r.Intn(2) == 0 {
+				text = promNumText(r, []string{"m", "m{a=\"b\"}", "up"})
+			} else if r.Intn(3) == 0 {
 				text = text + []string{" + ", " / ", " and ", " or ", " unless "}[r.Intn(5)] + promFrags[r.Intn(len(promFrags))]
 			}
 		default:
